@@ -275,6 +275,137 @@ impl<T: Entry> RowEchelonVecMatrix<T> {
     //@ end
 }
 
+// =====================================================================================================
+// the const-generic twin (src/geometry/matrix.rs): shapes are types, so "no shape makes these routines panic" is about the
+// indices and assertions inside RowEchelonMatrix::new
+// =====================================================================================================
+//@ begin src/geometry/matrix.rs :: - :: struct Matrix
+//@ rw R0 /^([ \t]+)(\w+): /\1pub \2: /
+pub struct Matrix<T, const N: usize, const M: usize> {
+    pub data: [[T; M]; N]
+}
+//@ end
+
+impl<T, const N: usize, const M: usize> Matrix<T, N, M> {
+    // assumed SHAPE contracts (bodies need `T: Scalar + Clone`, array-of-array manipulation): the assertions of swap_rows are its precondition
+    #[verifier::external_body]
+    pub fn clone(&self) -> (r: Self) { unimplemented!() }
+    #[verifier::external_body]
+    pub fn swap_rows(&mut self, i: usize, j: usize) requires i < N, j < N, i != j { unimplemented!() }
+}
+impl<T, const N: usize> Matrix<T, N, N> {
+    #[verifier::external_body]
+    pub fn identity() -> (r: Self) { unimplemented!() }
+}
+
+impl<T, const N: usize, const M: usize> IndexSpecImpl<(usize, usize)> for Matrix<T, N, M> {
+    open spec fn index_req(&self, index: &(usize, usize)) -> bool { index.0 < N && index.1 < M }
+}
+impl<T, const N: usize, const M: usize> Index<(usize, usize)> for Matrix<T, N, M>
+{
+    type Output = T;
+    #[verifier::external_body]
+    fn index(&self, index: (usize, usize)) -> (r: &Self::Output) { unimplemented!() }
+}
+
+impl<T, const N: usize, const M: usize> Array2d<T> for Matrix<T, N, M> {
+    open spec fn wf(&self) -> bool { true }
+    open spec fn srows(&self) -> int { N as int }
+    open spec fn scols(&self) -> int { M as int }
+
+    //@ begin src/geometry/matrix.rs :: impl<T, const N: usize, const M: usize> Array2d<T> for Matrix<T, N, M> :: fn nr_rows
+    fn nr_rows(&self) -> usize
+    {
+        N
+    }
+    //@ end
+
+    //@ begin src/geometry/matrix.rs :: impl<T, const N: usize, const M: usize> Array2d<T> for Matrix<T, N, M> :: fn nr_columns
+    fn nr_columns(&self) -> usize
+    {
+        M
+    }
+    //@ end
+
+    proof fn index_law(&self, i: usize, j: usize) {}
+}
+
+//@ begin src/geometry/matrix.rs :: - :: struct RowEchelonMatrix
+//@ rw R0 /^([ \t]+)(\w+): /\1pub \2: /
+pub struct RowEchelonMatrix<T: Entry, const N: usize, const M: usize> {
+    pub multiplier: Matrix<T, N, N>,
+    pub result: Matrix<T, N, M>,
+    pub columns: [usize; N],
+    pub rank: usize,
+    pub nr_swaps: usize
+}
+//@ end
+
+impl<T: Entry, const N: usize, const M: usize> RowEchelonMatrix<T, N, M> {
+    //@ begin src/geometry/matrix.rs :: impl<T: Entry + Clone, const N: usize, const M: usize> RowEchelonMatrix<T, N, M> :: fn new
+    //@ rw R16 /-> Self/-> (re: Self)/
+    //@ rw R12 /let mut row = 0;/let mut row: usize = 0;/
+    //@ rw R12 /let mut nr_swaps = 0;/let mut nr_swaps: usize = 0;/
+    //@ rw R17 /for col in 0\.\.M$/for col in it: 0..M/
+    pub fn new(m: &Matrix<T, N, M>) -> (re: Self)
+        // the same contract as the Vec-backed version: no index or assertion in the body can fail, and
+        ensures re.rank <= N, re.rank <= M,
+            pivots_increasing(re.columns@, re.rank as int),
+            forall|a: int| 0 <= a < re.rank ==> #[trigger] re.columns@[a] < M,
+            re.nr_swaps <= re.rank,
+    {
+        let mut u = m.clone();
+        let mut s = Matrix::identity();
+        let mut row: usize = 0;
+        let mut nr_swaps: usize = 0;
+        let mut cols = [N; N];
+
+        for col in it: 0..M
+            invariant
+                it.seq().len() == M,
+                row <= col, row <= N, nr_swaps <= row,
+                pivots_increasing(cols@, row as int),
+                forall|a: int| 0 <= a < row ==> #[trigger] cols@[a] < col,
+        {
+            if row >= N {
+                break;
+            }
+
+            if let Some(pr) = Entry::pivot_row(col, row, &u) {
+                if pr != row {
+                    u.swap_rows(pr, row);
+                    s.swap_rows(pr, row);
+                    nr_swaps += 1;
+                }
+
+                for r in (row + 1)..N
+                    invariant row < N, col < M,
+                {
+                    Entry::clear_col(col, r, row, &mut u, Some(&mut s));
+                }
+
+                cols[row] = col;
+                row += 1;
+            }
+        }
+
+        RowEchelonMatrix {
+            multiplier: s,
+            result: u,
+            columns: cols,
+            rank: row,
+            nr_swaps
+        }
+    }
+    //@ end
+}
+
+fn canary_new_fixed_contract<T: Entry>(m: &Matrix<T, 1, 2>)
+    ensures false
+{
+    let r = RowEchelonMatrix::new(m);
+}
+
 // vacuity guards
 fn canary_new_contract<T: Entry>(m: &VecMatrix<T>)
     requires m.inv(), m.nr_rows == 1, m.nr_cols == 2
